@@ -49,7 +49,13 @@ def c09():
     return [text.ClassicText(), text.ModernText()]
 
 
+def c05():
+    from harness import intmode
+    return [intmode.GuardRestores()]
+
+
 REGISTRY = {
+    'C05': dict(harnesses=c05, run=_runner('C05', c05)),
     'C09': dict(harnesses=c09, run=_runner('C09', c09)),
     'C15': dict(harnesses=c15, run=_runner('C15', c15)),
     'C20': dict(harnesses=c20, run=_runner('C20', c20)),
